@@ -73,6 +73,28 @@ func unwrapIface(v ssa.Value) ssa.Value {
 	}
 }
 
+// canonValue strips interface conversions and reads of a local variable that is assigned exactly once
+// (a variable captured by a closure lives in a cell: every use is a load of that cell).
+func canonValue(v ssa.Value) ssa.Value {
+	for d := 0; d < 6; d++ {
+		v = unwrapIface(v)
+		u, ok := v.(*ssa.UnOp)
+		if !ok || u.Op != token.MUL {
+			return v
+		}
+		al, ok := u.X.(*ssa.Alloc)
+		if !ok {
+			return v
+		}
+		sv := singleStore(al)
+		if sv == nil {
+			return v
+		}
+		v = sv
+	}
+	return v
+}
+
 // grantGuards: the registry insertion is reached only after every grant condition.
 func grantGuards(p *Prog, ls *Lockset, r *Report, rule string, m mgrSpec) {
 	key := F(m.Type + "." + m.Field)
@@ -105,7 +127,7 @@ func grantGuards(p *Prog, ls *Lockset, r *Report, rule string, m mgrSpec) {
 			continue
 		}
 		same := func(want ssa.Value) func(ssa.Value) bool {
-			return func(x ssa.Value) bool { return unwrapIface(x) == want }
+			return func(x ssa.Value) bool { return canonValue(x) == canonValue(want) }
 		}
 		r.Check(rule, base+"|server-found", hasNilGuard(gs, false, same(serverF)), pos, "insertion only if the addressed local feature exists; guards: "+guardDesc(gs))
 		r.Check(rule, base+"|client-found", hasNilGuard(gs, false, same(clientF)), pos, "insertion only if the client feature exists on the requesting device")
@@ -130,7 +152,7 @@ func grantGuards(p *Prog, ls *Lockset, r *Report, rule string, m mgrSpec) {
 					if s, ok := constString(arg); ok && s == role {
 						hasRole = true
 					}
-					if unwrapIface(arg) == feat {
+					if canonValue(arg) == canonValue(feat) {
 						hasFeat = true
 					}
 					if strings.HasSuffix(Path(arg), ".ServerFeatureType") {
@@ -214,11 +236,11 @@ func entryBuiltFrom(st *ssa.Store, serverF, clientF ssa.Value) bool {
 		}
 		for _, r2 := range *fa.Referrers() {
 			if s2, ok := r2.(*ssa.Store); ok && s2.Addr == ssa.Value(fa) {
-				got[fieldOfAddr(fa).Name()] = unwrapIface(s2.Val)
+				got[fieldOfAddr(fa).Name()] = canonValue(s2.Val)
 			}
 		}
 	}
-	return got["ServerFeature"] == serverF && got["ClientFeature"] == clientF
+	return got["ServerFeature"] == canonValue(serverF) && got["ClientFeature"] == canonValue(clientF)
 }
 
 // checkerRule: the role/type checker called by Add returns nil only if the role
@@ -547,14 +569,26 @@ func scanContentOne(p *Prog, r *Report, rule string, m mgrSpec, components []str
 		}
 		field := FN(m.Type + "." + m.Field)
 		found := map[string]bool{}
+		// the scan is a loop in the function (or an extracted helper), or a predicate handed to slices.ContainsFunc / IndexFunc
+		var sites []ssa.CallInstruction
 		forEachCall(fn, func(site ssa.CallInstruction) {
+			sites = append(sites, site)
+			if c, ok := site.(*ssa.Call); ok && len(c.Call.Args) == 2 {
+				if h := c.Call.StaticCallee(); h != nil && fnPkgPath(h) == "slices" && strings.HasSuffix(originName(h), "Func") {
+					for _, pf := range predicateFunctions(c.Call.Args[1], 0) {
+						forEachCallOwn(pf, func(s2 ssa.CallInstruction) { sites = append(sites, s2) })
+					}
+				}
+			}
+		})
+		for _, site := range sites {
 			c, ok := site.(*ssa.Call)
 			if !ok {
-				return
+				continue
 			}
 			callee := c.Call.StaticCallee()
 			if callee == nil || fnPkgPath(callee) != "reflect" || callee.Name() != "DeepEqual" {
-				return
+				continue
 			}
 			a0, a1 := Path(c.Call.Args[0]), Path(c.Call.Args[1])
 			for _, comp := range components {
@@ -573,7 +607,7 @@ func scanContentOne(p *Prog, r *Report, rule string, m mgrSpec, components []str
 					r.Check(rule, fmt.Sprintf("%s|scan:%s", base, comp), want != "" && other == want, p.InstrPos(c), fmt.Sprintf("existing entries' %s%s is compared with %s; the new entry's %s is %s", comp, suffix, other, comp, want))
 				}
 			}
-		})
+		}
 		for _, comp := range components {
 			if !found[comp] {
 				r.Fail(rule, fmt.Sprintf("%s|scan:%s", base, comp), p.Pos(fn.Pos()), "the scan deciding the insertion does not compare the existing entries' "+comp)
